@@ -14,9 +14,11 @@ Inductive tspec :=
 | Chain (sid : nat) (steps : list tspec)            (* tuple *)
 | Alt (sid : nat) (branches : list tspec)           (* Coalesce: all fail -> its own CoalesceError *)
 | OrS (sid : nat) (branches : list tspec)           (* Or: the last branch's error propagates *)
-| Switch (sid : nat) (cases : list (tspec * tspec)).
+| Switch (sid : nat) (cases : list (tspec * tspec))
+| Guard (sid : nat) (ok : bool) (kid : tspec).      (* Check(kid, ...): the sub-spec runs in a scope of its own, then the guard passes
+                                                        the target on or raises its OWN error — a spec that fails after its children succeeded *)
 
-Definition sid_of s := match s with Leaf n _ | SkipLeaf n | Nest n _ | Chain n _ | Alt n _ | OrS n _ | Switch n _ => n end.
+Definition sid_of s := match s with Leaf n _ | SkipLeaf n | Nest n _ | Chain n _ | Alt n _ | OrS n _ | Switch n _ | Guard n _ _ => n end.
 
 Record frame := mkF { f_spec : nat; f_target : nat; f_up : nat; f_last : option nat;
                       f_cerrs : list nat; f_err : option nat; f_nopy : bool }.
@@ -85,6 +87,9 @@ Fixpoint glom_ (fuel : nat) (st : store) (parent t : nat) (s : tspec) {struct fu
     | Alt n bs => alt_loop (glom_ fuel) (5000 + n) st f t bs
     | OrS _ bs => or_loop (glom_ fuel) st f t bs
     | Switch n cs => switch_loop (glom_ fuel) (5000 + n) st f t cs
+    | Guard n ok kid => match glom_ fuel st f t kid with
+                        | (st, Ret _) => if ok then (st, Ret t) else (st, Exc (6000 + n))
+                        | (st, Exc e) => (st, Exc e) end
     end in
   match r with
   | Ret v => (st, Ret v)
